@@ -122,16 +122,24 @@ def sensitivity(only=None, count=None):
                 cmd = [D.PY, os.path.join(D.HERE, "driver.py"), "check", prop, "--tier", "quick", "--no-evidence"]
                 if count:
                     cmd += ["--count", str(count)]
-                t0 = time.time()
-                r = subprocess.run(cmd, env=env, capture_output=True, text=True, cwd=D.VERIF)
-                v = [l for l in r.stdout.splitlines() if l.startswith("VIOLATION ")]
-                if r.returncode == 1 and v:
-                    caught_by.append(prop)
-                    cls = v[0].split("class=")[1].split()[0] if "class=" in v[0] else "?"
-                    D.say("mutant %-42s caught by %s in %.0fs (%s)" % (m["name"], prop, time.time() - t0, cls))
-                elif r.returncode not in (0, 1):
-                    D.say("mutant %-42s: check %s exit %d: %s" % (m["name"], prop, r.returncode, r.stdout[-300:]))
-                else:
+                found = False
+                for sd in [None] + list(m.get("seeds", [])):
+                    if sd is not None:
+                        env["VERIF_SEED"] = str(sd)
+                    t0 = time.time()
+                    r = subprocess.run(cmd, env=env, capture_output=True, text=True, cwd=D.VERIF)
+                    v = [l for l in r.stdout.splitlines() if l.startswith("VIOLATION ")]
+                    if r.returncode == 1 and v:
+                        caught_by.append(prop)
+                        cls = v[0].split("class=")[1].split()[0] if "class=" in v[0] else "?"
+                        D.say("mutant %-42s caught by %s in %.0fs (%s)%s" % (m["name"], prop, time.time() - t0, cls,
+                                                                              "" if sd is None else " with VERIF_SEED=%d" % sd))
+                        found = True
+                        break
+                    elif r.returncode not in (0, 1):
+                        D.say("mutant %-42s: check %s exit %d: %s" % (m["name"], prop, r.returncode, r.stdout[-300:]))
+                        break
+                if not found:
                     D.say("mutant %-42s NOT caught by %s" % (m["name"], prop))
             if not caught_by:
                 missed += 1
